@@ -83,6 +83,37 @@ prop("C10", True,
      note="Trusted: go/ssa, VTA call graph; fresh-result helpers (maps built from operand contents) do not alias operands (computed, optimistic fixpoint); reflection in goFuncs.go is outside the tables. NOT decided: agreement of any operator with the language semantics, termination of user programs.",
      design="DESIGN.md §3 C10")
 
+prop("C13", True,
+     technique="visited-guard verification on the visitor's recursive cycle (SCC + CFG), open/close pairing on success paths, statement-kind coverage and descent, R-GUARD/R-DEREF/R-ORDER from the sequence-diagram entry points",
+     text="Decides structural necessary conditions: the recursive descent of the sequence visitor into a called endpoint is control-dependent on a membership test of the visited multiset, dominated by its increment and followed on every success path by its decrement (cycles end; repeated non-nested calls are expanded again — the validated 'never release the in-progress mark' mutation is reported); Indent/Unindent and Activated/deactivate pair on every success path, the deactivation closure clears its flag; every function that opens a block writes `end` on every success path; visitStatment has a case for every producible statement kind and hands on the nested statements of every block kind; participants are declared from one place; no explicit panic, unchecked by-name look-up, unguarded recursion or unsorted map walk reaching the text is reachable from GenerateSequenceDiag/DoConstructSequenceDiagrams.",
+     note="Trusted: go/ssa, VTA call graph. NOT decided: that the arrows are exactly the reachable calls in source order ('mis-flag the last choice of an alternative' is invisible), activation balance across the whole emitted text. Known findings: format-string panics in FormatParser.",
+     design="DESIGN.md §3 C13")
+prop("C14", True,
+     technique="visited-guard verification of the pass-through walk, statement-kind coverage/descent of ProcessCalls, guard-before-effect rule on the call handlers (exclude set), R-GUARD/R-DEREF/R-ORDER from GenerateIntegrations",
+     text="Decides structural necessary conditions: the pass-through walk is guarded by an in-progress set with test, insertion and deferred removal (pass-through cycles terminate); ProcessCalls covers every producible statement kind and descends into every block kind; in each call handler AddCall and appends to the final application list are reached only after a negative test of the exclude set or a positive test of an admitted-applications set, and a handler invoked for every application of the model tests its source application (the validated 'draw excluded callers' mutation is reported); seed/caller/indirect passes iterate sorted name slices; no explicit panic, unchecked by-name look-up or unguarded recursion is reachable from GenerateIntegrations.",
+     note="Trusted: go/ssa, VTA call graph. NOT decided: soundness/completeness of arrows against the model.",
+     design="DESIGN.md §3 C14")
+prop("C15", True,
+     technique="kind coverage of the tuple drawer and dispatcher (oneof implementers from go/types), per-back-edge emit rule on the field loops, R-GUARD/R-DEREF/R-ORDER from the data-model generators",
+     text="Thin claim — decides: the tuple drawer unwraps every producible collection-wrapper kind (set, sequence, list) before classifying a field; the dispatcher has a branch for relation, tuple, primitive alias and enum; every way round either field loop writes the field's line (one unconfirmed silent arm is a baseline row); field loops run over sorted names; no explicit panic / unchecked look-up / unsorted map walk reaching output from the generators.",
+     note="Trusted: go/ssa, VTA. NOT decided: counts and uniqueness of classes and relationship lines (the validated 'second reference not counted' mutation is invisible), alias collisions.",
+     design="DESIGN.md §3 C15")
+prop("C16", True,
+     technique="R-REC (identity recursion), R-ORDER, R-DEREF, R-GUARD from the database script generators",
+     text="Decides structural necessary conditions only: the depth computation's self-call with unchanged arguments has no progress guard (known finding: cyclic or dangling foreign keys overflow the stack); emission order depends on map iteration through colliding line-number keys (known findings, reproduced); reference paths are indexed without length tests (one reproduced, the rest unconfirmed baseline rows); the delta path sorts; no new explicit panic is reachable.",
+     note="Trusted: go/ssa, VTA. NOT decided: dependency order of emitted tables, the effect of delta scripts (needs an interpreter for the DDL: another technique family); taint of the per-depth table lists is not tracked through the returned map, so removing the delta path's sort is not seen.",
+     design="DESIGN.md §3 C16")
+prop("C17", True,
+     technique="aliasing-append shapes (R-ALIAS), statement/type kind coverage and descent (R-KINDS), recover-barrier check, R-GUARD/R-DEREF/R-REC/R-ORDER from relmod.Normalize",
+     text="Decides structural necessary conditions: no append in pkg/arrai/relmod extends a slice parameter or a parameter's slice field and retains the result in another object (the defect behind 'siblings four levels deep share a position path', repaired on this tree); normalizeStatement covers every producible statement kind and descends into every block kind (the validated 'skip rows nested in for-each' mutation is reported); the type normaliser covers every producible type kind except unions; Normalize recovers converter panics into an error; appends under map iteration land in unordered-tagged relations; no unchecked look-up or unguarded recursion.",
+     note="Trusted: go/ssa, VTA; arrai struct tags mark set-valued relations. NOT decided: row-for-row completeness.",
+     design="DESIGN.md §3 C17")
+prop("C20", True,
+     technique="whole-program reachability of crash sites (R-GUARD with process-exit semantics for commands), unchecked by-name look-ups (R-DEREF), recursion classification (R-REC) from cmdRunner.Run and every command's Execute",
+     text="Decides structural necessary conditions of 'every command ends with output or an error': from cmdRunner.Run and the Execute method of every cmdutils.Command implementer (16; lsp, repl and test-rig excluded) every explicit panic, must-helper call and non-constant regexp.MustCompile in repository code is under a recover barrier (a deferred recover that exits non-zero counts: an error exit is allowed), process exits carry a non-zero status, look-ups of model elements by name are nil/ok-tested before dereference and reference paths length-tested before indexing, and every recursive cycle is structural, guarded or accepted with a reason. Sites present on the pinned tree are each an exception (argued), a reproduced known finding, a repaired defect, or an unconfirmed baseline row; any new site fails the check with its call chain.",
+     note="Trusted: go/ssa, VTA (over-approximate). NOT decided: implicit runtime panics outside the modelled classes (arbitrary index arithmetic, nil maps, third-party type assertions — e.g. the nil schema dereference found and repaired by hand), loop termination, arr.ai bundles. 40 baseline rows are reported as unconfirmed.",
+     design="DESIGN.md §3 C20")
+
 for i in range(1, 21):
     pid = "C%02d" % i
     if pid not in P:
